@@ -23,6 +23,16 @@ def item_names(c):
     return adts, fns
 
 
+def fn_sigs(c):
+    """{function path: 'return type|argument types'} of one crate's bodies (closures excluded)"""
+    out = {}
+    for b in c.get("bodies", []):
+        if "{closure" in b["name"] or b.get("kind") == "closure":
+            continue
+        out[b["name"]] = "|".join(c["types"][t] for t in b["locals"][:b["argc"] + 1])
+    return out
+
+
 def compute_aliases(d):
     """Items that moved to another module since the pinned tree: {current path: pinned path}.  The rules name their anchors by the paths of the pinned
     tree; a type or function that is found under a new module path, while the pinned path has disappeared and crate, (type and) simple name are the same
@@ -35,12 +45,14 @@ def compute_aliases(d):
         return {}
     pinned = json.load(open(PINNED_ITEMS))
     pin_adts, pin_fns = set(pinned["adts"]), set(pinned["fns"])
-    cur_adts, cur_fns = set(), set()
+    cur_adts, cur_fns, cur_sigs = set(), set(), {}
     for f in sorted(os.listdir(d)):
         if f.endswith(".json") and f not in ("c_facts.json", "aliases.json"):
-            a, b = item_names(json.load(open(os.path.join(d, f))))
+            cj = json.load(open(os.path.join(d, f)))
+            a, b = item_names(cj)
             cur_adts |= a
             cur_fns |= b
+            cur_sigs.update(fn_sigs(cj))
     aliases = {}
 
     def tail(n):
@@ -76,6 +88,21 @@ def compute_aliases(d):
         inv.setdefault(apply(n), n)
     for p_, q in fa.items():
         aliases[inv.get(p_, p_)] = q
+    # renamed in place: in one parent (module or type) exactly one pinned function is gone and exactly one new function has its signature
+    pin_sigs = pinned.get("sigs", {})
+    done_new, done_gone = set(fa), set(fa.values())
+    by_parent_gone, by_parent_new = {}, {}
+    for q in pin_fns - cur2 - done_gone:
+        if q in pin_sigs and not q.startswith("<"):
+            by_parent_gone.setdefault((q.rsplit("::", 1)[0], pin_sigs[q]), []).append(q)
+    for p_ in set(new) - done_new:
+        n0 = inv.get(p_, p_)
+        if n0 in cur_sigs:
+            by_parent_new.setdefault((p_.rsplit("::", 1)[0], apply(cur_sigs[n0])), []).append(p_)
+    for k, g in by_parent_gone.items():
+        nw = by_parent_new.get(k, [])
+        if len(g) == 1 and len(nw) == 1:
+            aliases[inv.get(nw[0], nw[0])] = g[0]
     try:
         with open(cache, "w") as fh:
             json.dump(aliases, fh, indent=1, sort_keys=True)
